@@ -2,6 +2,7 @@ package sx
 
 import (
 	"fmt"
+	"os"
 	"go/token"
 	"go/types"
 	"sort"
@@ -191,6 +192,9 @@ func (in *Interp) clockNow() TimeV {
 	if m.clockFrozen && m.nowCount > 0 {
 		return TimeV{Sec: m.curSec, Nsec: m.curNsec}
 	}
+	if os.Getenv("GOSX_TRACE_NOW") != "" {
+		fmt.Fprintf(os.Stderr, "NOW#%d frozen=%v %s\n", m.nowCount, m.clockFrozen, in.traceStack)
+	}
 	secV := in.fresh("now_s", smt.IntSort)
 	nsecV := in.fresh("now_n", smt.IntSort)
 	in.input(secV)
@@ -353,7 +357,7 @@ func init() {
 	reg := func(name string, f intrinsic) { intrinsics[name] = f }
 
 	// time
-	reg("time.Now", func(in *Interp, fr *frame, a []Value) Value { return in.clockNow() })
+	reg("time.Now", func(in *Interp, fr *frame, a []Value) Value { in.traceStack = stackOf(fr); return in.clockNow() })
 	reg("time.Unix", func(in *Interp, fr *frame, a []Value) Value {
 		sec, nsec := a[0].(BV), a[1].(BV)
 		if nsec.T != nil || nsec.C >= nsPerSec {
